@@ -40,7 +40,9 @@ def fission_assign_then_reduce(sig, case):
     """fission accepted although the loop-invariant pre-gap block assigns a location the
     post-gap block reduces into (Commutes_Fissioning's a1_no_loop_var relaxation)"""
     d = _diag(sig)
-    return sig.get("op") in ("fission", "autofission") and sig.get("kind") in ("diff", "poison") and d.get("pre_assigns_what_post_reduces") and not d.get("pre_mentions_iter")
+    # (the first half is invariant in the loop being fissioned; with n_lifts > 1 it may well mention
+    # the iterators of the inner loops, so `pre_mentions_iter` does not enter the predicate)
+    return sig.get("op") in ("fission", "autofission") and sig.get("kind") in ("diff", "poison") and bool(d.get("pre_assigns_what_post_reduces"))
 
 
 def fission_if_condition_written(sig, case):
